@@ -110,6 +110,7 @@ type Machine struct {
 	MaxDepth int
 	GoInline bool
 	Verbose  bool
+	Prefix   string
 
 	// per path
 	pc        []*smt.Term
@@ -360,8 +361,10 @@ func (m *Machine) freshName(name string) string {
 	return name
 }
 
+// Fresh makes a named symbol.  SMT-level names carry the machine's prefix (one namespace per harness
+// entry, so entries running in one process cannot clash); draws/scripts use the bare name.
 func (m *Machine) Fresh(name string, s smt.Sort) *smt.Term {
-	return smt.Var(m.freshName(name), s)
+	return smt.Var(m.Prefix+m.freshName(name), s)
 }
 
 func (m *Machine) newCell(v Value, t types.Type, name string) *Cell {
